@@ -262,19 +262,22 @@ fn run_writes_line(t: &mut Toks) -> String {
     }
 }
 
-/// `R <arch> <fill> <len>`: MinidumpContext::read on `len` bytes in which every 32-bit word is `fill`, with a system info
+/// `R <arch> <fill> <len> [B]`: (B = everything read big-endian; the bytes still hold the fill word little-endian)
+/// MinidumpContext::read on `len` bytes in which every 32-bit word is `fill`, with a system info
 /// whose processor_architecture is `arch` (parsed from a 56-byte MINIDUMP_SYSTEM_INFO through the stream's own reader):
 /// `rd=<variant>;rsz=<register_size>;rip=<get_instruction_pointer>` or `rd=RF` (ReadFailure) / `rd=UC` (UnknownCpuContext)
 fn run_read(t: &mut Toks) -> String {
     let arch = t.u64() as u16;
     let fill = t.u64() as u32;
     let len = t.u64() as usize;
+    let big = t.opt() == Some("B");
+    let endian = if big { scroll::BE } else { scroll::LE };
     let mut sys = vec![0u8; 56];
-    sys[0..2].copy_from_slice(&arch.to_le_bytes());
-    let si = MinidumpSystemInfo::read(&sys, &sys, scroll::LE, None).expect("system info from 56 bytes");
+    sys[0..2].copy_from_slice(&(if big { arch.to_be_bytes() } else { arch.to_le_bytes() }));
+    let si = MinidumpSystemInfo::read(&sys, &sys, endian, None).expect("system info from 56 bytes");
     let mut bytes = pattern(Some(fill));
     bytes.truncate(len);
-    match MinidumpContext::read(&bytes, scroll::LE, &si, None) {
+    match MinidumpContext::read(&bytes, endian, &si, None) {
         Ok(c) => {
             let v = match c.raw {
                 MinidumpRawContext::X86(_) => "X86",
